@@ -53,42 +53,43 @@ Theorem C07_honours_data :
 Proof. exact honours_data. Qed.
 Print Assumptions C07_honours_data.
 
-(* cache coherence over ALL histories of the current tree (repair commits 2a36b2f, 002fae9, bf42345): whatever operations
-   came before — calls with any seed / position / store option, set_pos, set_condition, in-place model change, property
-   re-assignment, set_generator, in-place edits of the caller's position array, direct calls of the Krige object,
-   csrf.pos = ... — a call made while the kriging setup is up to date returns the field a freshly built object returns *)
+(* cache coherence over ALL histories of the current tree, with NO side condition: whatever operations came before —
+   calls with any seed / position / mesh type / store names / raw-kriging storing / external drift, set_pos, set_condition,
+   in-place model change, model replacement or re-assignment of the same edited object, mean / trend / normalizer
+   re-assignment, set_generator, in-place edits of arrays the caller passed (positions, conditions), direct calls of the
+   Krige object, csrf.pos = ... — a call made while the kriging setup is up to date returns the field a freshly built
+   object returns for the present settings, target (positions, external drift) and seed *)
 Theorem C07_cache_coherent :
-  forall (sd0 : nat) (ops : list Op) (p : option (Pos * bool)) (sd : option nat) (srk : bool) (ns : nat),
-  clean ops -> clean_op (Call p sd srk ns) ->
+  forall (sd0 : nat) (ops : list Op) (p : option (Pos * bool)) (sd : option nat) (srk : bool) (ns xd : nat),
   let s := run repaired ops (init sd0) in
-  forall s' o, step repaired s (Call p sd srk ns) = (s', RField o) -> refreshed s' ->
+  forall s' o, step repaired s (Call p sd srk ns xd) = (s', RField o) -> refreshed s' ->
   same_field (RField o) (fresh_result s').
 Proof. exact cache_coherent. Qed.
 Print Assumptions C07_cache_coherent.
 
 (* the invariant itself: whenever the reuse branch is taken, the stored results were computed from the current
-   positions, conditions, model and mean/trend/normalizer *)
+   positions, external drift, conditions, model and mean/trend/normalizer *)
 Theorem C07_reuse_only_current :
-  forall (sd0 : nat) (ops : list Op) (p : option (Pos * bool)) (sd : option nat) (srk : bool) (ns : nat),
-  clean ops -> clean_op (Call p sd srk ns) ->
+  forall (sd0 : nat) (ops : list Op) (p : option (Pos * bool)) (sd : option nat) (srk : bool) (ns xd : nat),
   let s := run repaired ops (init sd0) in
-  forall s' o, step repaired s (Call p sd srk ns) = (s', RField o) -> refreshed s' -> o_reuse o = true ->
+  forall s' o, step repaired s (Call p sd srk ns xd) = (s', RField o) -> refreshed s' -> o_reuse o = true ->
   o_k o = cur_desc s' /\ o_v o = cur_desc s'.
 Proof. exact reuse_only_current. Qed.
 Print Assumptions C07_reuse_only_current.
 
-(* the cache is not trivially dead (every version of the tree): after any successful call that stores raw_krige, a
-   call without position (or with an equal one) and any seed takes the reuse branch and uses the same kriging results *)
-Theorem C07_reuse_when_unchanged : forall (fx : Fix) (s : St) p sd ns (s1 : St) (o1 : Out),
-  step fx s (Call p sd true ns) = (s1, RField o1) ->
+(* the cache is not trivially dead (every version of the tree): after any successful call that stores the raw kriging
+   field, a call under the same names and external drift without position (or with an equal one) and any seed takes the
+   reuse branch and uses the same kriging results *)
+Theorem C07_reuse_when_unchanged : forall (fx : Fix) (s : St) p sd ns xd (s1 : St) (o1 : Out),
+  step fx s (Call p sd true ns xd) = (s1, RField o1) ->
   forall q sd2 srk, rkset srk ns = ns ->
-  (q = None \/ exists c, q = Some (c, st_mesh s1) /\ pos_close (cur_pos s1) c = true) ->
-  exists s2 o2, step fx s1 (Call q sd2 srk ns) = (s2, RField o2) /\ o_reuse o2 = true /\ o_k o2 = o_k o1 /\ o_v o2 = o_v o1.
+  (q = None \/ exists c, q = Some (c, st_mesh s1) /\ pos_close fx (cur_pos s1) c = true) ->
+  exists s2 o2, step fx s1 (Call q sd2 srk ns xd) = (s2, RField o2) /\ o_reuse o2 = true /\ o_k o2 = o_k o1 /\ o_v o2 = o_v o1.
 Proof. exact reuse_when_unchanged. Qed.
 Print Assumptions C07_reuse_when_unchanged.
 
-(* the hypothesis [refreshed] is what the documentation asks for: set_condition (with or without arguments) and a model
-   re-assignment always establish it, and only an in-place model change can destroy it *)
+(* the hypothesis [refreshed] is what the documentation asks for: set_condition (with or without arguments), a model
+   replacement and the re-assignment of the same model object always establish it; only an in-place model change destroys it *)
 Theorem C07_refreshed_characterised : forall s : St,
   (forall k, refreshed (fst (step repaired s (SetCond k)))) /\
   refreshed (fst (step repaired s SetModel)) /\
@@ -97,72 +98,74 @@ Theorem C07_refreshed_characterised : forall s : St,
 Proof. exact refreshed_characterised. Qed.
 Print Assumptions C07_refreshed_characterised.
 
-(* the pinned behaviour (before 2a36b2f) violates coherence: witnesses *)
+(* earlier versions of the tree violate coherence: witness histories ([stale fx seed history last_call]) *)
 Theorem C07_cache_coherent_refuted_pinned_set_condition :
-  stale pinned 7 [Call (Some (mkPos 0 0, false)) None true 0; SetCond NewVals] (Call None None true 0).
+  stale pinned 7 [Call (Some (mkPos 0 0 0, false)) None true 0 0; SetCond NewVals] (Call None None true 0 0).
 Proof. exact pinned_refuted_set_condition. Qed.
 Print Assumptions C07_cache_coherent_refuted_pinned_set_condition.
 
 Theorem C07_cache_coherent_refuted_pinned_mean :
-  stale pinned 7 [Call (Some (mkPos 0 0, false)) None true 0; SetMean] (Call None None true 0).
+  stale pinned 7 [Call (Some (mkPos 0 0 0, false)) None true 0 0; SetMean] (Call None None true 0 0).
 Proof. exact pinned_refuted_mean. Qed.
 Print Assumptions C07_cache_coherent_refuted_pinned_mean.
 
 Theorem C07_cache_coherent_refuted_pinned_model :
-  stale pinned 7 [Call (Some (mkPos 0 0, false)) None true 0; SetModel; SetCond Refresh] (Call None (Some 3%nat) true 0).
+  stale pinned 7 [Call (Some (mkPos 0 0 0, false)) None true 0 0; SetModel; SetCond Refresh] (Call None (Some 3%nat) true 0 0).
 Proof. exact pinned_refuted_model. Qed.
 Print Assumptions C07_cache_coherent_refuted_pinned_model.
 
 Theorem C07_cache_coherent_refuted_pinned_inplace_refresh :
-  stale pinned 7 [Call (Some (mkPos 0 0, false)) None true 0; ModelInplace; SetCond Refresh] (Call None None true 0).
+  stale pinned 7 [Call (Some (mkPos 0 0 0, false)) None true 0 0; ModelInplace; SetCond Refresh] (Call None None true 0 0).
 Proof. exact pinned_refuted_inplace_refresh. Qed.
 Print Assumptions C07_cache_coherent_refuted_pinned_inplace_refresh.
 
-(* the tree after 2a36b2f only (before 002fae9 / bf42345) still violates coherence: the caller edits the passed position
-   array in place; the Krige object is called directly on other positions; csrf.pos is assigned; a call that does not
-   store raw_krige leaves an old one next to a new krige_var *)
+(* after 2a36b2f only: in-place edit of the passed position array; direct Krige call; csrf.pos = ...; raw_krige not stored *)
 Theorem C07_cache_coherent_refuted_first_repair_mutate_pos :
-  stale first_repair 7 [Call (Some (mkPos 0 0, false)) None true 0; MutatePos (mkPos 1 0)]
-        (Call (Some (mkPos 1 0, false)) None true 0).
+  stale first_repair 7 [Call (Some (mkPos 0 0 0, false)) None true 0 0; MutatePos (mkPos 1 0 0)]
+        (Call (Some (mkPos 1 0 0, false)) None true 0 0).
 Proof. exact first_repair_refuted_mutate_pos. Qed.
 Print Assumptions C07_cache_coherent_refuted_first_repair_mutate_pos.
 
 Theorem C07_cache_coherent_refuted_first_repair_direct_krige :
-  stale first_repair 7 [Call (Some (mkPos 0 0, false)) None true 0; KrigeCall (Some (mkPos 1 0, false))] (Call None None true 0).
+  stale first_repair 7 [Call (Some (mkPos 0 0 0, false)) None true 0 0; KrigeCall (Some (mkPos 1 0 0, false))] (Call None None true 0 0).
 Proof. exact first_repair_refuted_direct_krige. Qed.
 Print Assumptions C07_cache_coherent_refuted_first_repair_direct_krige.
 
 Theorem C07_cache_coherent_refuted_first_repair_assign_pos :
-  stale first_repair 7 [Call (Some (mkPos 0 0, false)) None true 0; AssignPos (mkPos 1 0)] (Call None None true 0).
+  stale first_repair 7 [Call (Some (mkPos 0 0 0, false)) None true 0 0; AssignPos (mkPos 1 0 0)] (Call None None true 0 0).
 Proof. exact first_repair_refuted_assign_pos. Qed.
 Print Assumptions C07_cache_coherent_refuted_first_repair_assign_pos.
 
 Theorem C07_cache_coherent_refuted_first_repair_no_store :
-  stale first_repair 7 [Call (Some (mkPos 0 0, false)) None true 0; SetCond NewVals; Call None None false 0] (Call None None true 0).
+  stale first_repair 7 [Call (Some (mkPos 0 0 0, false)) None true 0 0; SetCond NewVals; Call None None false 0 0]
+        (Call None None true 0 0).
 Proof. exact first_repair_refuted_no_store. Qed.
 Print Assumptions C07_cache_coherent_refuted_first_repair_no_store.
 
-(* one reference slot shared by all store names instead of one per raw-kriging name is refuted: a call under other
-   names makes the stale default-named raw kriging field look current *)
+(* one reference slot shared by all store names instead of one per raw-kriging name *)
 Theorem C07_cache_coherent_refuted_shared_ref :
-  stale shared_ref 7 [Call (Some (mkPos 0 0, false)) None true 0; SetCond NewVals; Call None None true 1] (Call None None true 0).
+  stale shared_ref 7 [Call (Some (mkPos 0 0 0, false)) None true 0 0; SetCond NewVals; Call None None true 1 0]
+        (Call None None true 0 0).
 Proof. exact shared_ref_refuted. Qed.
 Print Assumptions C07_cache_coherent_refuted_shared_ref.
 
-(* conditioning arrays kept as views of the caller's arrays are refuted *)
+(* conditioning arrays kept as views of the caller's arrays *)
 Theorem C07_cache_coherent_refuted_aliased_cond :
-  stale aliased_cond 7 [Call (Some (mkPos 0 0, false)) None true 0; MutateCond] (Call None None true 0).
+  stale aliased_cond 7 [Call (Some (mkPos 0 0 0, false)) None true 0 0; MutateCond] (Call None None true 0 0).
 Proof. exact aliased_cond_refuted. Qed.
 Print Assumptions C07_cache_coherent_refuted_aliased_cond.
 
-(* still open on the current tree: a position change inside the np.allclose window of Field._pos_equal keeps the
-   stored kriging results (known finding C07 pos-window) — this is why C07_cache_coherent carries [clean] *)
-Theorem C07_pos_window_refuted :
-  exists s' o, step repaired (run repaired [Call (Some (mkPos 0 0, false)) None true 0] (init 7))
-                    (Call (Some (mkPos 0 1, false)) None true 0) = (s', RField o)
-               /\ refreshed s' /\ o_reuse o = true /\ ~ same_field (RField o) (fresh_result s').
-Proof. exact window_refuted. Qed.
-Print Assumptions C07_pos_window_refuted.
+(* Field._pos_equal with np.allclose (before bd353ac): a position change below the tolerance keeps the stored results *)
+Theorem C07_cache_coherent_refuted_allclose_pos :
+  stale allclose_pos 7 [Call (Some (mkPos 0 0 0, false)) None true 0 0] (Call (Some (mkPos 0 1 0, false)) None true 0 0).
+Proof. exact allclose_pos_refuted. Qed.
+Print Assumptions C07_cache_coherent_refuted_allclose_pos.
+
+(* reuse test ignoring the external drift given with the call (before fb09c72) *)
+Theorem C07_cache_coherent_refuted_no_ext_token :
+  stale no_ext_token 7 [Call (Some (mkPos 0 0 0, false)) None true 0 1] (Call None None true 0 2).
+Proof. exact no_ext_token_refuted. Qed.
+Print Assumptions C07_cache_coherent_refuted_no_ext_token.
 
 (* far from the data under simple kriging (estimate 0, variance = sill): exactly the unconditional field *)
 Theorem C07_far_field_limit_point : forall nug var r zn : R, 0 <= nug -> 0 < var ->
